@@ -229,17 +229,45 @@ def check_case(ctx, case, V=None):
             ctx.count('bruteforce_count_checked')
 
 
+@guarded
+def check_after_maxlag(ctx, case):
+    """the same statement for an instance whose maximum lag was re-assigned in place after everything had been
+    computed once (the distance vector, its pairing with the differences and the classes must stay consistent)"""
+    if not isinstance(case['kw']['bin_func'], str):
+        return
+    try:
+        V = vario.build(case)
+        observe(V)
+        with quiet():
+            V.maxlag = case['then_maxlag']
+        edges = observe(V)[0]
+    except (ValueError, AttributeError, RuntimeError) as e:
+        ctx.reject('then-maxlag:' + type(e).__name__)
+        return
+    if len(edges) == 0 or not np.all(np.isfinite(edges)):
+        return
+    ctx.count('after_maxlag:' + str(case['then_maxlag']))
+    check_case(ctx, dict(case, kw=dict(case['kw'], maxlag=case['then_maxlag']), after_maxlag=True), V=V)
+
+
 def run(ctx):
     # warm-up of the JIT-compiled estimators happens on the first case
     ncase = ctx.n(130, 2000)
     for k in range(ncase):
         case = vario.gen_case(ctx.rng, nmax=38 if ctx.tier == 'quick' else 60)
         check_case(ctx, case)
+        if k % 4 == 0:
+            sparse_route = case['storage'] == 'raw' and str(case.get('maxlag_form', '')).startswith('abs')
+            check_after_maxlag(ctx, dict(case, then_maxlag='median' if sparse_route and k % 8 == 0 else
+                                         ['median', 'mean', 0.7, None][(k // 4) % 4]))
         if (k + 1) % 150 == 0:
             ctx.lean.flush()
     ctx.lean.flush()
 
 
 def replay(ctx, body):
-    check_case(ctx, body['case'])
+    if body['case'].get('after_maxlag'):
+        check_after_maxlag(ctx, body['case'])
+    else:
+        check_case(ctx, body['case'])
     ctx.lean.flush()
